@@ -201,6 +201,7 @@ class Extractor:
         self.ghost = {}                            # (cname, anchor) -> text
         self.fn_src = {}                           # cname -> (file,line,qualified name)
         self.sideeffect_args = []                  # (fn, call) where an argument expression has a side effect
+        self.if_nodes = {}                         # cname -> {if ordinal: IfStmt node}
 
     # ------------------------------------------------------------------ types
     def resolve(self, tdict, fn=None):
@@ -383,6 +384,28 @@ class Extractor:
         suffix = 'll' if elem in ('long', 'long long') else ''
         self.arrays[name] = (elem, n, vals)
         return name
+
+    def names_referenced_after_if(self, cname, iford):
+        """names of parameters / locals referenced by the statements that FOLLOW the given (top-level) if statement in
+        the body of function cname -- used to state that the rest of a function depends on its inputs only through
+        the variables observed at that cut point"""
+        f = self.funcs[cname]
+        body = [c for c in kids(f['node']) if c.get('kind') == 'CompoundStmt'][0]
+        target = self.if_nodes.get(cname, {}).get(iford)
+        stmts = kids(body)
+        idx = [i for i, st in enumerate(stmts) if st is target]
+        if not idx:
+            raise ExtractError('%s: if statement #%d is not a top-level statement of the body' % (cname, iford))
+        names = set()
+
+        def walk(n):
+            if n.get('kind') == 'DeclRefExpr' and n.get('referencedDecl', {}).get('kind') in ('ParmVarDecl', 'VarDecl'):
+                names.add(n['referencedDecl'].get('name'))
+            for c in kids(n):
+                walk(c)
+        for st in stmts[idx[0] + 1:]:
+            walk(st)
+        return names
 
     # ------------------------------------------------------------------- emit
     def float_to_int_helper(self, src, dst):
@@ -662,6 +685,10 @@ class FnTranslator:
             if n.get('hasElse'):
                 out.append(I + 'else')
                 out.append(self.block(ch[2]))
+            g = self.ex.ghost.get((self.cname, ('after_if', iford)))
+            if g:
+                out.append(I + g)
+            self.ex.if_nodes.setdefault(self.cname, {})[iford] = n
             return out
         if k == 'WhileStmt':
             ch = kids(n)
